@@ -101,6 +101,18 @@ int main()
       ls.setPreconditionner(ac);
       ls.estimateUsingCholeskyDecomposition();
       putm(ls.computeEstimateCovariance(a[2 + m * n + n]));
+    } else if (t[0] == "lsg" && a.size() >= 2) {
+      // as "ls" with a full (generally non-symmetric) preconditioner matrix Ac, row-major
+      int m = static_cast<int>(a[0]), n = static_cast<int>(a[1]);
+      if (static_cast<int>(a.size()) != 2 + m * n + n * n + 1 + n * n) {std::cout << "?\n"; continue;}
+      LeastSquares<double> ls(n, m);
+      for (int i = 0; i < m * n; ++i) {ls.getJ()(i / n, i % n) = a[2 + i];}
+      for (int i = 0; i < m; ++i) {ls.getY()(i) = 1.0 + i;}
+      Eigen::MatrixXd ac = Eigen::MatrixXd::Zero(n, n);
+      for (int i = 0; i < n * n; ++i) {ac(i / n, i % n) = a[2 + m * n + i];}
+      ls.setPreconditionner(ac);
+      ls.estimateUsingCholeskyDecomposition();
+      putm(ls.computeEstimateCovariance(a[2 + m * n + n * n]));
     } else {
       g_out = "?";
     }
